@@ -212,7 +212,9 @@ def tlc(work, module, cfg_text, env=None, workers=1, extra=None, timeout=1800, x
         shutil.copy(f, d)
     with open(os.path.join(d, module + ".cfg"), "w") as f:
         f.write(cfg_text)
-    jopts = "-Xss1g -Xmx%s" % xmx
+    jtmp = os.path.join(d, "jtmp")
+    os.makedirs(jtmp, exist_ok=True)
+    jopts = "-Xss1g -Xmx%s -Djava.io.tmpdir=%s" % (xmx, jtmp)
     if deque:
         jopts += " -Dtlc2.tool.queue.IStateQueue=StateDeque"
     e = {"JAVA_TOOL_OPTIONS": jopts}
